@@ -234,16 +234,25 @@ func RunFile(doc string) (coq string, conf shconfig.Root, o Obs) {
 // driveTasks follows shovel.loadTasks: one task per source reference of every
 // enabled integration; a reference that names no source fails the load as a
 // whole.
-func driveTasks(o *Obs, srcs []shconfig.Source, igs []shconfig.Integration) {
+// Loadable: every source reference of every enabled integration resolves
+// (shovel.loadTasks succeeds).
+func Loadable(srcs []shconfig.Source, igs []shconfig.Integration) bool {
 	for _, ig := range igs {
 		if !ig.Enabled {
 			continue
 		}
 		for _, ref := range ig.Sources {
 			if _, ok := sourceByName(srcs, ref.Name); !ok {
-				return
+				return false
 			}
 		}
+	}
+	return true
+}
+
+func driveTasks(o *Obs, srcs []shconfig.Source, igs []shconfig.Integration) {
+	if !Loadable(srcs, igs) {
+		return
 	}
 	for _, ig := range igs {
 		if !ig.Enabled {
